@@ -410,6 +410,16 @@ func gen(r *vu.Rng, i int) []string {
 		}
 		s += string(r.BytesFrom(sfAlphabet, r.Intn(3)))
 	}
+	if (op == "item" || op == "list" || op == "dict") && r.Chance(1, 20) { // §4.2 surrounding SP
+		switch r.Intn(3) {
+		case 0:
+			s = " " + s
+		case 1:
+			s = s + " "
+		default:
+			s = "  " + s + " "
+		}
+	}
 	if r.Chance(1, 20) { // any op on any text
 		op = allOps[r.Intn(len(allOps))]
 	}
@@ -593,9 +603,34 @@ func runRef(op, s string) (string, bool) {
 	return "", false
 }
 
+const sigTopSP = "C56:top-level-sp-not-discarded"
+
+// runRefTop is RFC 9651 §4.2 for the three top-level structures: discard leading SP (step 2), run the
+// structure's algorithm, discard trailing SP (step 6), fail on anything left (step 7).
+func runRefTop(op, s string) (string, bool) {
+	t := strings.TrimLeft(s, " ")
+	switch op {
+	case "list", "dict":
+		return runRef(op, t)
+	case "item":
+		return runRef(op, strings.TrimRight(t, " "))
+	}
+	return runRef(op, s)
+}
+
 func oracleContainer(op, s, got string, o *vu.Out) {
-	want, has := runRef(op, s)
-	if !has || got == want {
+	strict, has := runRef(op, s)
+	if !has {
+		return
+	}
+	want, _ := runRefTop(op, s)
+	if got == want {
+		return
+	}
+	if got == strict && got == "err" {
+		// known finding: the package implements §4.2.1 / §4.2.2 / §4.2.3 but not the §4.2 wrapper.
+		o.Fail(sigTopSP, fmt.Sprintf("%s(%q) rejected; RFC 9651 §4.2 discards the surrounding SP and yields %q", op, s, want))
+		o.Stat("deviation:" + sigTopSP)
 		return
 	}
 	o.Fail("", fmt.Sprintf("%s(%q): package says %q, RFC 9651 reference says %q", op, s, got, want))
